@@ -30,7 +30,9 @@ for ch in "$@"; do
 	n=$(echo "$out" | grep -c '^VIOLATION')
 	k=$(echo "$out" | grep -c '^KNOWN-FINDING')
 	first=$(echo "$out" | grep '^VIOLATION' | head -1 | sed 's/.*replays\///')
+	fl=$(grep -c 'HARNESS-FLAKY' "$S/err.txt")
 	echo "$ch $TIER exit=$rc violations=$n known=$k seconds=$(( $(date +%s) - s )) first=$first"
+	if [ "$fl" != 0 ]; then echo "    WARNING: $fl violation key(s) not reproduced by replay (HARNESS-FLAKY): $(grep -m1 'HARNESS-FLAKY' "$S/err.txt" | cut -c1-300)"; fi
 	if [ $rc -ge 2 ]; then tail -5 "$S/err.txt" | sed 's/^/    /'; fi
 	if [ -n "${KEEP_OUT:-}" ]; then { echo "== $ch"; echo "$out" | head -40; tail -40 "$S/err.txt"; } >> "$KEEP_OUT"; fi
 done
